@@ -311,7 +311,7 @@ static int join_do_op(int idx, op_t* op) {
     // b: 0 sole joiner (must succeed), 1 contender (may fail; opens the gate when it lost), 2 may be woken by detach
     void* res = (void*)0x55;
     // both forms of the call: with a place for the result and without (about one joiner in three passes NULL)
-    int no_result = (idx * 7 + t) % 3 == 0;
+    int no_result = (op->c & 1) ? 1 : (op->c & 2) ? 0 : (idx * 7 + t) % 3 == 0;
     int before = g_fiber_switches(idx);
     j_in_join[idx] = t + 1;
     int r = fiber_join(f, no_result ? 0 : &res);
